@@ -72,3 +72,50 @@ PROPS = {
             "note": "Trusted: class-3 audit entries, A-OFFSET, dependency contracts (regex-automata build limits, bit-set growth = max element), rustc as fact source.",
             "explanation": "Same panic-site audit over all bodies reachable from Regex::new / RegexBuilder::build / Expr::parse_tree / Expr::to_str / Error Display, plus TAINT (pattern-derived integers must be bounded before arithmetic or allocation) and REC (every call-graph cycle cut by the depth guard or structural descent)."},
 }
+
+
+import fam_iter
+
+
+def c08(run, ctx):
+    fam_iter.iter_state_machine(run, ctx, "<Matches as Iterator>::next", "find_iter")
+    fam_iter.next_utf8_rule(run, ctx)
+
+
+PROPS["C08"] = {"fn": c08, "level": "other",
+    "technique": "structured path enumeration of the iterator body (HIR) with per-path difference-constraint facts; must-pass-through obligations on the state machine",
+    "claim": "Decides the shape of the find_iter state machine on every path of Matches::next: search only while pos <= len and stop only beyond it, an Err poisons the iterator, empty matches advance by one code point, adjacent empty matches are dropped after advancing, the previous match end is recorded before every yield, the skipped-empty-match flag is passed exactly when an empty match was skipped. Non-overlap of successive matches for concrete inputs is not decided.",
+    "note": "Necessary conditions only; the behaviour of a single search (C01) and that matches never start before the previous end are outside this check (see known finding F2 under C05/C10/C11).",
+    "explanation": "All paths of Matches::next and next_utf8 are enumerated from the type-resolved HIR; each obligation is evaluated on every path with the branch conditions of that path as facts."}
+
+
+def c09(run, ctx):
+    fam_iter.dispatch_rule(run, ctx)
+    fam_iter.iter_state_machine(run, ctx, "<Matches as Iterator>::next", "find_iter")
+    fam_iter.iter_state_machine(run, ctx, "<CaptureMatches as Iterator>::next", "captures_iter")
+
+
+def c10(run, ctx):
+    fam_iter.split_rule(run, ctx)
+
+
+def c11(run, ctx):
+    fam_iter.replace_rule(run, ctx)
+    fam_iter.replacer_rule(run, ctx)
+
+
+PROPS["C09"] = {"fn": c09, "level": "other",
+    "technique": "HIR shape rules: dispatch table over RegexImpl arms with argument provenance; shared state-machine obligations applied to both iterator bodies",
+    "claim": "Decides structurally that is_match / find_from_pos* / captures_from_pos* each handle both engines and pass the caller's text, position, flags and the regex's own program/options to vm::run (resp. the same span to the wrapped regex), that find/captures forward position 0, and that captures_iter obeys exactly the state-machine obligations of find_iter (including the skipped-empty-match flag).",
+    "note": "Equality of the answers of the two regex-automata calls (is_match / search / captures) is the dependency's contract.",
+    "explanation": "Every match on RegexImpl in impl Regex is enumerated; each vm::run call and wrapped-regex call is compared argument by argument with the entry point's own parameters; both iterator bodies are path-enumerated against one obligation set."}
+PROPS["C10"] = {"fn": c10, "level": "other",
+    "technique": "structured path enumeration of Split::next / SplitN::next with must-pass-through obligations",
+    "claim": "Decides the shape of the split state machines on every path: piece = target[next_start..m.start()] then next_start = m.end(); remainder target[next_start..len] once, then a sentinel beyond len; errors passed through; SplitN: limit==0 first, decrement before the limit>0 test, delegate to Split::next, last piece is the untouched remainder. Piece boundaries for concrete inputs are not decided.",
+    "note": "Relies on C08 for the matches themselves; the ordering next_start <= m.start() is known finding F2 (reported under C05).",
+    "explanation": "All paths of both next() bodies are enumerated; each class of path (exhausted/remainder/match/error; zero/delegate/last/done) must exist and satisfy its obligations."}
+PROPS["C11"] = {"fn": c11, "level": "other",
+    "technique": "structured path enumeration of try_replacen (both loops) + Replacer impl table",
+    "claim": "Decides structurally that both loops of try_replacen borrow iff there is no match, propagate search errors with `?` before slicing, stop at `limit > 0 && i >= limit`, copy the gap, insert the replacement once and advance last_match to m.end(), append the tail; replace/replace_all/replacen forward (1,0,n); the five string-like Replacer impls share one no_expansion helper testing contains('$'), NoExpand returns Some, closures keep None; every replace_append writes to dst.",
+    "note": "The replaced text for concrete inputs is not decided; slices rely on F2's missing ordering guard (reported under C05).",
+    "explanation": "Paths of try_replacen are enumerated (loop bodies once); obligations are evaluated per path and per Replacer impl."}
